@@ -649,6 +649,10 @@ class Interp:
                 return not v
             if isinstance(e.op, ast.USub):
                 return -v
+            if isinstance(e.op, ast.Invert) and (getattr(type(v), '_interp_safe', False) or (isinstance(v, int) and not isinstance(v, bool))):
+                return ~v
+            if isinstance(e.op, ast.UAdd) and isinstance(v, (int, float)):
+                return +v
         if isinstance(e, ast.BinOp):
             l, r = self.ev(e.left, env), self.ev(e.right, env)
             if any(isinstance(x, (Obj, ClassRef)) for x in (l, r)) and not any(getattr(type(x), '_interp_safe', False) for x in (l, r)):
@@ -912,7 +916,12 @@ class Interp:
                 finally:
                     self.module = saved
             if n == 'len':
-                return len(args[0])
+                if isinstance(args[0], (Obj, ClassRef)):
+                    raise AnalysisError(f'interpreter: len() of a stand-in in `{norm(e)[:60]}`')
+                try:
+                    return len(args[0])
+                except TypeError:
+                    raise Raised('TypeError', e)
             if n == 'isinstance':
                 cls = args[1]
                 cls = [c.name if isinstance(c, ClassRef) else c for c in (cls if isinstance(cls, (list, tuple)) else [cls])]
